@@ -777,8 +777,10 @@ where
                 .get_direct::<Azks>(&crate::append_only_zks::DEFAULT_AZKS_KEY)
                 .await?
         } else {
+            // The epoch record of a publish that has not committed yet (pending in the transaction
+            // log shared by all clones) must not be served: the epoch it names is not published.
             storage
-                .get::<Azks>(&crate::append_only_zks::DEFAULT_AZKS_KEY)
+                .get_committed::<Azks>(&crate::append_only_zks::DEFAULT_AZKS_KEY)
                 .await?
         };
         match got {
